@@ -25,7 +25,8 @@ def _movable(e):
 
 
 def _leaf_bindings(st):
-    """[(arm statement list owner, index)] when every leaf arm of the if / elif / else is one `name = <movable>`; else None"""
+    """(names, [arm blocks]) when every leaf arm of the if / elif / else consists of `name = <movable>` bindings of the same set of
+    names (one or several, each bound once per arm); else None"""
     if not st.orelse:
         return None
     arms = []
@@ -33,10 +34,11 @@ def _leaf_bindings(st):
     def leaf(block):
         if len(block) == 1 and isinstance(block[0], ast.If):
             return collect(block[0])
-        if len(block) == 1 and isinstance(block[0], ast.Assign) and len(block[0].targets) == 1 and isinstance(block[0].targets[0], ast.Name) \
-                and _movable(block[0].value):
-            arms.append(block)
-            return True
+        if block and all(isinstance(b, ast.Assign) and len(b.targets) == 1 and isinstance(b.targets[0], ast.Name) and _movable(b.value) for b in block):
+            names = [b.targets[0].id for b in block]
+            if len(set(names)) == len(names) and not any(_loads(b.value, n) for b in block for n in names):
+                arms.append(block)
+                return True
         return False
 
     def collect(n):
@@ -44,8 +46,8 @@ def _leaf_bindings(st):
 
     if not collect(st):
         return None
-    names = {b[0].targets[0].id for b in arms}
-    return (names.pop(), arms) if len(names) == 1 else None
+    sets = {frozenset(b.targets[0].id for b in block) for block in arms}
+    return (sorted(next(iter(sets))), arms) if len(sets) == 1 else None
 
 
 def _loads(node, name):
@@ -72,22 +74,27 @@ def sink_block(stmts, fnode):
             lb = _leaf_bindings(st)
             nxt = stmts[i + 1]
             if lb is not None and isinstance(nxt, (ast.Return, ast.Assign, ast.Expr, ast.AnnAssign)):
-                name, arms = lb
-                later = sum(_loads(s_, name) for s_ in stmts[i + 2:])
-                total_loads = _loads(fnode, name)
-                total_stores = _stores(fnode, name)
-                # the name lives only here: bound in the arms, read once by the next statement
-                if _loads(nxt, name) == 1 and later == 0 and total_loads == 1 and total_stores == len(arms) and _stores(nxt, name) == 0 \
-                        and not any(isinstance(x, (ast.Lambda, ast.GeneratorExp, ast.ListComp, ast.SetComp, ast.DictComp)) and _loads(x, name)
-                                    for x in ast.walk(nxt) if not _is_iter_position(nxt, x, name)):
+                names, arms = lb
+                ok = True
+                for name in names:
+                    later = sum(_loads(s_, name) for s_ in stmts[i + 2:])
+                    # the name lives only here: bound in the arms, read once by the next statement
+                    if not (_loads(nxt, name) == 1 and later == 0 and _loads(fnode, name) == 1 and _stores(fnode, name) == len(arms)
+                            and _stores(nxt, name) == 0):
+                        ok = False
+                    if any(isinstance(x, (ast.Lambda, ast.GeneratorExp, ast.ListComp, ast.SetComp, ast.DictComp)) and _loads(x, name)
+                           and not _is_iter_position(nxt, x, name) for x in ast.walk(nxt)):
+                        ok = False
+                if ok:
                     for block in arms:
-                        val = block[0].value
+                        vals = {b.targets[0].id: b.value for b in block}
 
                         class S(ast.NodeTransformer):
                             def visit_Name(self, x):
-                                return copy.deepcopy(val) if x.id == name and isinstance(x.ctx, ast.Load) else x
-                        block[0] = ast.copy_location(S().visit(copy.deepcopy(nxt)), block[0])
-                        ast.fix_missing_locations(block[0])
+                                return copy.deepcopy(vals[x.id]) if x.id in vals and isinstance(x.ctx, ast.Load) else x
+                        new_st = ast.copy_location(S().visit(copy.deepcopy(nxt)), block[0])
+                        ast.fix_missing_locations(new_st)
+                        block[:] = [new_st]
                     out.append(st)
                     i += 2
                     continue
